@@ -51,10 +51,14 @@ def packetCheck (data : Bytes) : R Bytes :=
     then .error .protocol else
   .ok (((v2Cut data).take ((v2Cut data).length - 16)).drop 40)
 
-/-- `_Packet.decode(data)` (code as it stands: a ValueError of the cipher / padding library escapes) -/
+/-- `_Packet.decode(data)`: a ValueError of the cipher / padding library is reported as
+    ProtocolError (since `fix:` "report undecryptable packets from the peer as ProtocolError") -/
 def packetDecode (data : Bytes) : R Bytes :=
   match packetCheck data with
   | .error e => .error e
-  | .ok enc => decryptAes enc
+  | .ok enc =>
+    match decryptAes enc with
+    | .error _ => .error .protocol
+    | .ok f => .ok f
 
 end Msmart.Model
